@@ -111,6 +111,7 @@ package base
 //@   ensures insert-fails-on-an-existing-row: result[0:12] == "INSERT INTO " && !contains(result, "IGNORE") && !contains(result, "ON DUPLICATE KEY")
 //@ func (*BaseUndoLogManager).Undo
 //@   prop C10 C01
+//@   local undoLogRecords []undo.UndologRecord
 //@   ensures transaction-on-the-rollback-connection: !called("(*DB).BeginTx#1") && (ghost.utx != 0 ==> called("(*Conn).BeginTx#1") && callarg("(*Conn).BeginTx#1", 0) == callres("(*DB).Conn#1", 0))
 //@   modifies ghost.all, heap.all
 //@   requires db != nil && ghost.utx == 0 && !ghost.step_failed && ghost.execs == 0
